@@ -396,10 +396,17 @@ def install(rt: Runtime) -> Runtime:
             return np_array(v, dt)
         if isinstance(v, (Mat, Vec, Sym, Cube)):
             return v
+        if isinstance(v, tuple):
+            v = list(v)
         if isinstance(v, list):
+            v = [list(r) if isinstance(r, tuple) else (list(r.vals) if isinstance(r, Vec) else r) for r in v]
             if v and all(isinstance(r, list) for r in v):
+                if len({len(r) for r in v}) != 1:
+                    raise ValueError("setting an array element with a sequence (inhomogeneous shape)")
                 return Mat([list(r) for r in v])
             return Vec(list(v))
+        if isinstance(v, (int, float, bool)):
+            return v
         raise Unsupported("asarray operand")
 
     def np_max(v, axis=None, initial=None):
@@ -937,7 +944,58 @@ def install(rt: Runtime) -> Runtime:
     ex["numpy.hstack"] = fn(lambda parts: np_concatenate(parts))
     ex["numpy.stack"] = fn(lambda parts, axis=0: np_vstack(parts))
     ex["numpy.tile"] = fn(lambda v, n: Vec(vals_of(v) * n))
-    ex["numpy.repeat"] = fn(lambda v, n: Vec([x for x in vals_of(v) for _ in range(n)]))
+    def np_repeat(v, n, axis=None):
+        cells = vals_of(v) if not isinstance(v, (int, float, bool)) else [v]
+        if isinstance(n, (Vec, list, tuple)):
+            counts = vals_of(n)
+            if len(counts) != len(cells):
+                if len(counts) == 1:
+                    counts = counts * len(cells)
+                else:
+                    raise ValueError("operands could not be broadcast together")
+        else:
+            counts = [n] * len(cells)
+        if any((not isinstance(c, int)) or isinstance(c, bool) or c < 0 for c in counts):
+            raise ValueError("repeats may not contain negative values / must be integers")
+        return Vec([x for x, c in zip(cells, counts) for _ in range(c)])
+    ex["numpy.repeat"] = fn(np_repeat)
+
+    def np_select(condlist, choicelist, default=0):
+        conds = [c for c in condlist]
+        choices = [c for c in choicelist]
+        if len(conds) != len(choices):
+            raise ValueError("list of cases must be same length as list of conditions")
+        n_ = None
+        for c in conds + choices:
+            if isinstance(c, Vec):
+                n_ = len(c.vals)
+        if n_ is None:
+            for c, ch in zip(conds, choices):
+                if c:
+                    return ch
+            return default
+        if any(isinstance(c, Mat) for c in conds + choices):
+            raise Unsupported("select on matrices")
+
+        def cells(x):
+            if isinstance(x, Vec):
+                if len(x.vals) != n_:
+                    raise ValueError("shape mismatch")
+                return list(x.vals)
+            return [x] * n_
+        cc = [cells(c) for c in conds]
+        hh = [cells(c) for c in choices]
+        dd = cells(default)
+        out = []
+        for i in range(n_):
+            for c, h in zip(cc, hh):
+                if c[i]:
+                    out.append(h[i])        # the first condition that holds decides
+                    break
+            else:
+                out.append(dd[i])
+        return Vec(out)
+    ex["numpy.select"] = fn(np_select)
     ex["numpy.take"] = fn(lambda v, idx: Vec([vals_of(v)[i] for i in vals_of(idx)]))
     ex["numpy.transpose"] = fn(lambda m: Mat([list(c) for c in zip(*m.rows)]))
     ex["numpy.argwhere"] = fn(lambda v: Mat([[i] for i, x in enumerate(vals_of(v)) if x]) if not isinstance(v, Mat)
